@@ -1095,8 +1095,11 @@ func (s *Stage) putFileAway(file *finalFile) (targetPath string, err error) {
 	s.toCache(file, stateFinalized)
 
 	// Clean up the companion (no need to capture an error since it wouldn't
-	// be a deal-breaker anyway)
-	os.Remove(file.path + compExt)
+	// be a deal-breaker anyway) -- unless it already records the parts of a
+	// newer version of this name that is being received
+	if cmp, _ := readLocalCompanion(file.path, file.name); cmp == nil || cmp.Hash == file.hash {
+		os.Remove(file.path + compExt)
+	}
 	verifhook.Point("stage.d.rmcmp", file.path)
 	return
 }
